@@ -127,7 +127,49 @@ class World(object):
             for (rid, off), (sz, v) in list(st.mem.items()):
                 if rid == p.rid and (rid, off) not in paddr and sz == fs and isinstance(v, T) and v.sort == 'R':
                     st.mem[(rid, off)] = (sz, tm.sym('%s@%d' % (cache_prefix, off)))
+            # flags and counters (bool/int members) that an EVALUATOR of the class writes are remembered values as well ("already computed" flags)
+            for off, sz in sorted(self.eval_written(sol)):
+                e = st.mem.get((p.rid, off))
+                if sz in (1, 2, 4) and (p.rid, off) not in paddr and e is not None and e[0] == sz and isinstance(e[1], int) and not isinstance(e[1], bool):
+                    st.mem[(p.rid, off)] = (sz, tm.sym('%sI@%d' % (cache_prefix, off), 'I'))
         return syms
+
+    def eval_written(self, sol):
+        """(offset, size) of the object's members that any evaluator override of its class stores to (explored from the constructed state
+        with symbolic arguments); used to decide which non-FP members hold a value remembered from an earlier evaluation"""
+        key = ('eval-written', sol['scalar'], sol['name'])
+        if key in self._cache:
+            return self._cache[key]
+        from spec import api as A
+        self._cache[key] = set()          # (re-entrancy guard)
+        stc, s = self.find(sol['scalar'], sol['name'])
+        written = set()
+        hook0 = getattr(self.models, 'callback_hook', None)
+        if hook0 is None:
+            self.models.callback_hook = lambda ex, cv, args, ins: tm.uf('call:' + cv.p, *[a if isinstance(a, T) else tm.iconst(a) for a in args])
+        st_keep = self.ex.st
+        try:
+            for n in self.vtable_slots(s):
+                if not n or n not in self.prog.functions:
+                    continue
+                pv = A.parse_virtual(self.models.demangled(n), s['scalar'])
+                if not pv or pv[0] == 'manufactured_solution' or not pv[1].startswith('eval_'):
+                    continue
+                args = []
+                for k, q in enumerate(pv[2].split(',') if pv[2] else []):
+                    args.append(tm.sym('arg%d' % k) if q == 'S' else tm.sym('iarg%d' % k, 'I') if q == 'int' else tm.sym('callback%d' % k, 'P'))
+                try:
+                    for pth in self.ex.explore(stc, lambda ex, n=n, args=args: ex.call(n, [s['ptr']] + args), 64):
+                        for wr in pth['st'].writes[len(stc.writes):]:
+                            if wr[0] == s['ptr'].rid:
+                                written.add((wr[1], wr[2]))
+                except ExecError:
+                    pass
+        finally:
+            self.models.callback_hook = hook0
+            self.ex.st = st_keep
+        self._cache[key] = written
+        return written
 
     def method(self, sol, meth, arity, extra=''):
         """mangled name of Class<Scalar>::meth(Scalar x arity)"""
